@@ -1,0 +1,49 @@
+//go:build verif
+
+package interp
+
+// Contracts for property C02: the type the compiler gives an operator node whose result goes to an
+// interface destination.  Checked by /verif/govc. Comments only.
+//
+// The operator generators (op.go) compute in n.typ.concrete(): for an interface-typed node that is the
+// recorded concrete type n.typ.val.  An operator node typed with an interface type WITHOUT a concrete
+// type gets no closure at all (the switch on the kind matches nothing) and execution stops silently
+// at that node.  nodeType records the concrete type in the destination when it types an operator that
+// is assigned to an empty interface; the obligations below say that every arithmetic operator node
+// stored directly into an interface destination has gone through it.
+
+//@ trusted func childPos(n) (r)
+//@   pure
+//@ trusted func isEmptyInterface(t) (r)
+//@   pure
+//@ trusted func nodeType(interp, sc, n) (t, err)
+//@   modifies n.anc.child[0].typ
+//@   ensures binary-operator-into-empty-interface-records-concrete-type: err == nil && n.kind == binaryExpr && n.anc.kind == assignStmt && old(isEmptyInterface(n.anc.child[0].typ)) ==> n.anc.child[0].typ != nil && n.anc.child[0].typ.val != nil && fresh(n.anc.child[0].typ)
+//@   ensures otherwise-untouched: !(n.kind == binaryExpr && n.anc.kind == assignStmt && old(isEmptyInterface(n.anc.child[0].typ))) ==> n.anc.child[0].typ == old(n.anc.child[0].typ)
+
+//@ pred arith(a): a == aAdd || a == aAnd || a == aAndNot || a == aMul || a == aOr || a == aQuo || a == aRem || a == aShl || a == aShr || a == aSub || a == aXor
+//@ lit Interpreter.cfg case:binaryExpr#4 () ()
+//@   props C02
+//@   opt safety = off
+//@   opt opaque-calls = *
+//@   opt opaque-havoc = none
+//@   requires [assume] n != nil && n.anc != nil && len(n.child) == 2 && n.child[0] != nil && n.child[1] != nil && len(n.anc.child) >= 2 && n.anc.child[0] != nil && n.anc.child[0] != n && n.anc.child[0] != n.child[0] && n.anc.child[0] != n.child[1] && n.anc != n && n.child[0] != n && n.child[1] != n
+//@   requires [assume] the-case-guard: n.kind == binaryExpr
+//@   requires [assume] interface-context-is-not-propagated-in-pre-order: n.typ == nil
+//@   ensures operator-into-empty-interface-has-concrete-type: err == nil && arith(n.action) && !n.rval.IsValid() && n.anc.kind == assignStmt && n.anc.action == aAssign && n.anc.nleft == 1 && childPos(n) - n.anc.nright == 0 && old(isEmptyInterface(n.anc.child[0].typ)) ==> n.typ != nil && n.typ.val != nil
+
+// Unary operators (-x, ^x, !x, +x): their generators have no interface form, so the node keeps the type
+// of its operand when the result goes to an interface destination (assignment or return); the
+// destination is then set from the concrete value by the assignment / the return.
+//@ trusted func isInterface(t) (r)
+//@   pure
+//@ lit Interpreter.cfg case:unaryExpr#4 () ()
+//@   props C02
+//@   opt safety = off
+//@   opt opaque-calls = *
+//@   opt opaque-havoc = none
+//@   requires [assume] n != nil && n.anc != nil && len(n.child) == 1 && n.child[0] != nil && n.child[0] != n && n.anc != n && sc != nil && sc.def != nil && sc.def != n && sc.def.typ != nil
+//@   requires [assume] the-case-guard: n.kind == unaryExpr
+//@   let op: n.action == aNeg || n.action == aBitNot || n.action == aNot || n.action == aPos
+//@   ensures into-interface-variable-keeps-operand-type: err == nil && op && !n.rval.IsValid() && old(n.child[0].typ) != nil && n.anc.kind == assignStmt && n.anc.action == aAssign && n.anc.nright == 1 && isInterface(old(n.anc.child[childPos(n)-n.anc.nright].typ)) ==> n.typ == old(n.child[0].typ)
+//@   ensures into-interface-result-keeps-operand-type: err == nil && op && !n.rval.IsValid() && old(n.child[0].typ) != nil && n.anc.kind == returnStmt && isInterface(sc.def.typ.ret[childPos(n)]) ==> n.typ == old(n.child[0].typ)
